@@ -53,3 +53,13 @@ Example C11_nonvacuous :
   map zval (shares K (zp_of_nat p) 3 1 e) = [5; 8; 0]%Z /\ zval (value K e) = 2%Z /\
   map (fun r => zval (@output_at K (zp_of_nat p) 3 1 r (shares K (zp_of_nat p) 3 1 e))) [0;1;2] = [2;2;2]%Z.
 Proof. vm_compute. auto. Qed.
+
+(** Affine combinations with public coefficients of consistent sharings are consistent sharings
+    (the shape of the result of every masked-opening protocol). *)
+Theorem C11_public_affine_combinations :
+  forall (K : FieldT) (inj : nat -> K) (m d : nat) (c0 : K) (terms : list (K * list K * K)),
+    (forall c s a, In (c, s, a) terms -> Sharing inj m d s a) ->
+    Sharing inj m d (sh_lincomb K m c0 (map (fun x => (fst (fst x), snd (fst x))) terms))
+                    (val_lincomb K c0 (map (fun x => (fst (fst x), snd x)) terms)).
+Proof. exact sharing_lincomb. Qed.
+Print Assumptions C11_public_affine_combinations.
